@@ -27,6 +27,7 @@ enum Kind {
   K_PEER,            // peer behaviour
   K_HARNESS,         // harness-level on-line choice (e.g. C12 slot actions)
   K_HARNESS2,
+  K_THREADFAIL,      // pthread_create fails (EAGAIN: no resources for another thread)
   K_NKINDS
 };
 const char* kindName(int k);
@@ -69,6 +70,7 @@ struct Config {
   uint64_t tail_budget_min = 100000;  // quiet tail budget = max(this, tail_factor * steps used)
   int tail_factor = 20;
   // scheduling policy (search mode)
+  int64_t dilation_cap_ns = 8000000000LL;   // most extra simulated time one uninterrupted (never blocking) run of a task can be charged (sim/core.cpp, time dilation)
   int freeze_pct = 0;        // search mode: probability (percent) that a pre-empted task is kept away from the processor for 32..4096 further steps
   int mem_switch_log2 = 6;   // P(preempt at plain memory access) = 2^-k ; 0xff = never
   int sync_switch_log2 = 2;  // P(preempt at atomic / wrapped call)
